@@ -53,6 +53,7 @@ class Backend(object):
         self.gone = False              # the device was unplugged: descriptor reads fail too
         self.partial_timeout = False   # the next bulkRead times out after part of the data arrived: USBErrorTimeout with the bytes in .received
         self.fired = []                # backend call indices at which an injected error was raised
+        self.release_error = None      # error kind the next releaseInterface() raises (a device that went away before close())
         self.layout = None
         self.ndevices = 1              # how many ADB devices hang on the bus (ports [2, 3], [2, 4], ...); they all report the same serial number
 
@@ -99,6 +100,10 @@ class Handle(object):
         b.log.append(dict(name=name, k=k, **kw))
         if self.closed and name in ('bulkRead', 'bulkWrite'):
             raise USBErrorNoDevice('handle closed')
+        if b.release_error and name == 'releaseInterface':
+            e, b.release_error = b.release_error, None
+            b.fired.append(k)
+            raise ERRORS[e]('injected %s at releaseInterface (backend call %d)' % (e, k))
         e = b.errors.get(k)
         if e and name in ('bulkRead', 'bulkWrite'):
             if e == 'nodevice':
